@@ -349,7 +349,15 @@ func runCase(w *gal.Writer, target int, gen string, ops []Op) {
 	obs := make([]string, len(ops))
 	gops := make([]string, len(ops))
 	for i, o := range ops {
+		// a step that does not return (resolution of relative links is exponential
+		// in the number of linked components) must not hang the check
+		wdog := time.AfterFunc(60*time.Second, func() {
+			b, _ := json.Marshal(desc{targetNames[target], gen, ops[:i+1], obs[:i]})
+			fmt.Printf("IMPL-VIOLATION tag=step-does-not-return %s\n", b)
+			os.Exit(3)
+		})
 		obs[i] = wd.step(o)
+		wdog.Stop()
 		gops[i] = o.gal()
 	}
 	for _, h := range wd.handles {
@@ -462,7 +470,7 @@ func corpus() []scenario {
 		{"corner/lexical-dotdot", false, []Op{mkdir("a"), mkdir("a/b"), symlink("a/b", "l"), wfile("a/t", "at"), wfile("t", "roott"), symlink("../t", "a/b/x"), p1("ReadFile", "a/b/x"), p1("ReadFile", "l/x"), p1("Stat", "l/x"), symlink("../../t", "a/b/y"), p1("ReadFile", "a/b/y"), symlink("../../../t", "a/b/z"), p1("ReadFile", "a/b/z"), p1("Stat", "a/b/z")}},
 		{"corner/abs-target-not-cleaned", false, []Op{mkdir("a"), wfile("t", "x"), symlink("/a/../t", "l"), p1("ReadFile", "l"), p1("Stat", "l"), symlink("/a/./", "m"), p1("ReadDir", "m"), symlink("", "e"), p1("Stat", "e"), symlink(".", "dot"), p1("ReadDir", "dot"), p1("Stat", "dot/t")}},
 		{"corner/sequential-links-41", false, []Op{symlink("/", "s"), wfile("f", "x"), p1("Stat", rep("s", 39) + "/f"), p1("Stat", rep("s", 40) + "/f"), p1("Stat", rep("s", 41) + "/f"), p1("ReadFile", rep("s", 41) + "/f")}},
-		{"corner/relative-links-renest", true, []Op{symlink(".", "s"), wfile("f", "x"), p1("Stat", rep("s", 5) + "/f"), p1("Stat", rep("s", 39) + "/f"), p1("Stat", rep("s", 40) + "/f"), p1("Stat", rep("s", 41) + "/f")}},
+		{"corner/relative-links-renest", true, []Op{symlink(".", "s"), wfile("f", "x"), p1("Stat", rep("s", 5) + "/f"), p1("Stat", rep("s", 9) + "/f"), p1("ReadFile", rep("s", 12) + "/f")}},
 		{"corner/loops", true, []Op{symlink("x", "x"), p1("Stat", "x"), p1("ReadFile", "x"), open("x", fl(2, "creat")), symlink("b", "a"), symlink("a", "b"), p1("Stat", "a"), mkdirall("a/c"), wfile("a", "z"), Op{K: "Chmod", P: "b", Perm: 0o600}, p1("Lstat", "a"), p1("Readlink", "a"), p1("Remove", "a"), p1("Stat", "b")}},
 		{"corner/xattr-errors", true, []Op{symlink("x", "x"), Op{K: "SetXattr", P: "x", A: "user.a", B: []byte("1")}, p1("ListXattrs", "x"), Op{K: "GetXattr", P: "nope", A: "user.a"}, Op{K: "RemoveXattr", P: "x", A: "user.a"}}},
 		{"corner/tarfs-open-root", true, []Op{wfile("f", "x"), open(".", fl(0)), read(0, 3), p1("ReadFile", "/"), seek(0, 2, 0), closeh(0), read(0, 1)}},
@@ -473,7 +481,7 @@ func corpus() []scenario {
 		{"law/readdir-remove-recreate", true, []Op{mkdir("d"), wfile("d/b", "1"), wfile("d/a", "2"), mkdir("d/c"), p1("ReadDir", "d"), p1("Remove", "d/b"), p1("ReadDir", "d"), mkdir("d/b"), p1("ReadDir", "d"), p1("Remove", "d/a"), p1("Remove", "d/b"), p1("Remove", "d/c"), p1("ReadDir", "d"), p1("Remove", "d"), p1("ReadDir", ".")}},
 		{"law/metadata", true, []Op{wfile("f", "x"), Op{K: "Chmod", P: "f", Perm: 0o600}, Op{K: "Chown", P: "f", Uid: 12, Gid: 34}, Op{K: "Chtimes", P: "f", T: 1000000}, p1("Stat", "f"), symlink("f", "l"), Op{K: "Chmod", P: "l", Perm: 0o640}, Op{K: "Chown", P: "l", Uid: 1, Gid: 2}, p1("Stat", "f"), mkdir("d"), Op{K: "Chmod", P: "d", Perm: 0o700}, p1("Stat", "d"), Op{K: "Chmod", P: "f", Perm: uint32(fs.ModeSetuid | 0o755)}, p1("Stat", "f")}},
 		{"law/xattrs-mknod", false, []Op{wfile("f", "x"), Op{K: "SetXattr", P: "f", A: "user.b", B: []byte("2")}, Op{K: "SetXattr", P: "f", A: "user.a", B: []byte("1")}, p1("ListXattrs", "f"), Op{K: "SetXattr", P: "f", A: "user.b", B: []byte("3")}, Op{K: "GetXattr", P: "f", A: "user.b"}, Op{K: "RemoveXattr", P: "f", A: "user.a"}, Op{K: "RemoveXattr", P: "f", A: "user.zz"}, p1("ListXattrs", "f"), Op{K: "GetXattr", P: "f", A: "user.a"}, Op{K: "Mknod", P: "null", Perm: 0o666, Dev: 259}, p1("Readnod", "null"), p1("Stat", "null"), p1("Readnod", "f"), p1("Readnod", "nope"), Op{K: "Mknod", P: "null", Perm: 0o666, Dev: 261}, p1("ReadDir", ".")}},
-		{"law/read-write-patterns", true, []Op{p1("Create", "f"), write(0, "0123456789"), seek(0, 3, 0), write(0, "abc"), seek(0, 0, 0), read(0, 4), read(0, 4), read(0, 4), read(0, 4), readat(0, 3, 8), readat(0, 3, 10), readat(0, 0, 2), seek(0, -2, 2), write(0, "WXYZ"), p1("ReadFile", "f"), seek(0, 0, 3), closeh(0), closeh(0), read(0, 1), write(0, "x"), seek(0, 0, 0), read(0, 0)}},
+		{"law/read-write-patterns", true, []Op{p1("Create", "f"), write(0, "0123456789"), seek(0, 3, 0), write(0, "abc"), seek(0, 0, 0), read(0, 4), read(0, 4), read(0, 4), read(0, 4), readat(0, 3, 8), readat(0, 3, 10), readat(0, 0, 2), seek(0, -2, 2), write(0, "WXYZ"), p1("ReadFile", "f"), seek(0, 0, 9), closeh(0), closeh(0), read(0, 1), write(0, "x"), seek(0, 0, 0), read(0, 0)}},
 		{"law/symlinked-dirs", true, []Op{mkdirall("a/b/c"), symlink("a/b", "l"), wfile("l/c/f", "deep"), p1("ReadFile", "a/b/c/f"), symlink("c/f", "a/b/rel"), p1("ReadFile", "l/rel"), p1("ReadDir", "l"), mkdir("l/new"), p1("ReadDir", "a/b"), symlink("b/c", "a/m"), p1("ReadDir", "a/m"), mkdirall("a/m/x/y"), p1("ReadDir", "a/b/c")}},
 		{"chain/39", false, chain(39)},
 		{"chain/40", false, chain(40)},
@@ -488,6 +496,7 @@ var names = []string{"a", "b", "c", "d", "e", "f"}
 type genState struct {
 	r      *gal.Rand
 	known  []string // paths that an earlier operation tried to create
+	dirs   []string // those made by Mkdir / MkdirAll
 	nh     int      // handles possibly open
 	tame   bool     // stay inside what is safe on the directory-backed filesystem
 	unclean bool
@@ -495,22 +504,24 @@ type genState struct {
 
 func (g *genState) freshPath() string {
 	r := g.r
-	depth := 1
-	switch x := r.Intn(20); {
-	case x >= 16:
-		depth = 3
-	case x >= 9:
-		depth = 2
-	}
-	if len(g.known) > 0 && r.Chance(1, 2) && depth > 1 {
-		base := gal.Pick(r, g.known)
-		if strings.Count(base, "/") < 2 {
-			return base + "/" + gal.Pick(r, names)
+	// mostly: a name inside the root or a directory made earlier (at most 3 levels)
+	if g.tame || r.Chance(5, 6) {
+		parent := ""
+		if len(g.dirs) > 0 && r.Chance(3, 5) {
+			parent = gal.Pick(r, g.dirs)
 		}
+		if parent == "" || strings.Count(parent, "/") >= 2 {
+			if parent == "" {
+				return gal.Pick(r, names)
+			}
+			return parent
+		}
+		return parent + "/" + gal.Pick(r, names)
 	}
+	depth := 1 + r.Intn(3)
 	parts := make([]string, depth)
 	for i := range parts {
-		parts[i] = gal.Pick(r, names[:3+min(i*2, 3)])
+		parts[i] = gal.Pick(r, names)
 	}
 	return strings.Join(parts, "/")
 }
@@ -599,10 +610,15 @@ func (g *genState) op() Op {
 	case x < 8:
 		p := g.freshPath()
 		g.known = append(g.known, p)
+		g.dirs = append(g.dirs, p)
 		return Op{K: "Mkdir", P: p, Perm: perm | 0o700}
 	case x < 12:
 		p := g.freshPath()
+		if r.Chance(1, 2) && strings.Count(p, "/") < 2 {
+			p += "/" + gal.Pick(r, names)
+		}
 		g.known = append(g.known, p)
+		g.dirs = append(g.dirs, p)
 		return Op{K: "MkdirAll", P: p, Perm: perm | 0o700}
 	case x < 20:
 		p := g.path()
@@ -650,7 +666,7 @@ func (g *genState) op() Op {
 			off = -off - 1
 		}
 		if r.Chance(1, 40) {
-			wh = 3
+			wh = 9 // not 3: that is SEEK_DATA for the host kernel
 		}
 		return Op{K: "Seek", H: g.handle(), Off: off, Wh: wh}
 	case x < 59:
